@@ -37,7 +37,7 @@ type HistCase struct {
 
 var histOps = []string{"reroot", "rerootfirst", "unroot", "midpoint", "outgroup", "prune", "prunekeep", "collapselen", "collapsesup", "collapsedepth",
 	"removeedges", "collapseclade", "resolve", "rotate", "sort", "removesingle", "clone", "subtree", "nniapply", "nniapplyundo", "insertidentical", "graft", "merge",
-	"rename", "renameauto", "renameregexp", "shuffle", "reinit", "clearlen", "clearsup", "clearcomments", "scale", "round"}
+	"rename", "renameauto", "renameregexp", "shuffle", "reinit", "clearlen", "clearsup", "clearcomments", "scale", "round", "addcomment", "editcomment"}
 
 // structure-changing operations (for the non-triviality rule)
 var structOps = map[string]bool{"reroot": true, "rerootfirst": true, "unroot": true, "midpoint": true, "outgroup": true, "prune": true, "prunekeep": true,
@@ -404,6 +404,36 @@ func applyOp(st *histState, op HOp) (desc string, err error) {
 	case "clearcomments":
 		t.ClearComments()
 		return "ClearComments", nil
+	case "addcomment":
+		nodes := t.Nodes()
+		n := nodes[op.A%len(nodes)]
+		st.serial++
+		n.AddComment(fmt.Sprintf("added%d", st.serial))
+		if es := n.Edges(); len(es) > 0 {
+			es[op.B%len(es)].AddComment(fmt.Sprintf("addedbr%d", st.serial))
+		}
+		return fmt.Sprintf("AddComment(node#%d and one of its branches)", op.A%len(nodes)), nil
+	case "editcomment":
+		// in-place edit through the slices the accessors hand out
+		done := false
+		st.serial++
+		for _, n := range t.Nodes() {
+			if cs := n.Comments(); len(cs) > 0 && !done {
+				cs[0] = fmt.Sprintf("edited%d", st.serial)
+				done = true
+			}
+		}
+		for _, e := range t.Edges() {
+			if cs := e.Comments(); len(cs) > 0 {
+				cs[0] = fmt.Sprintf("editedbr%d", st.serial)
+				done = true
+				break
+			}
+		}
+		if !done {
+			return opSkip, nil
+		}
+		return "edit the first node comment and the first branch comment in place", nil
 	case "scale":
 		f := []float64{0.5, 2, 0.25, 4}[op.A%4]
 		t.ScaleLengths(f, op.B%2 == 0, op.B%4 < 2)
